@@ -97,6 +97,18 @@ impl Number {
                     .round()
             };
 
+            // Round to the requested number of decimals up front: the float formatter cannot
+            // round a number up into a digit position it would not otherwise print (such as
+            // 0.5 with zero decimals or 0.05 with one decimal).
+            let number = match config.max_decimal_digits {
+                Some(decimals) if number.is_finite() => {
+                    let scale = 10.0_f64.powi(decimals.max(0) as i32);
+                    let rounded = (number * scale).round() / scale;
+                    if rounded.is_finite() { rounded } else { number }
+                }
+                _ => number,
+            };
+
             let formatted_number = dtoa(number, config);
 
             if formatted_number.contains('.') && !formatted_number.contains('e') {
